@@ -115,3 +115,178 @@ theorem inv_run (acts : List Act) (s s' : St) (h : RInv s) (hr : runActs s acts 
     · cases hr
 
 end L4.Relay
+
+/-! ## every run is finite: a measure that every action strictly decreases -/
+namespace L4.Relay
+
+def sumBelow (k : Nat) (f : Nat → Nat) : Nat := ((List.range k).map f).sum
+
+theorem sumBelow_succ (k : Nat) (f : Nat → Nat) : sumBelow (k + 1) f = sumBelow k f + f k := by
+  simp [sumBelow, List.range_succ]
+
+theorem sumBelow_congr (k : Nat) (f g : Nat → Nat) (h : ∀ j, j < k → f j = g j) : sumBelow k f = sumBelow k g := by
+  induction k with
+  | zero => rfl
+  | succ k ih => rw [sumBelow_succ, sumBelow_succ, ih (fun j hj => h j (by omega)), h k (by omega)]
+
+/-- changing `f` at one index below `k` changes the sum by the difference -/
+theorem sumBelow_update (k : Nat) (f g : Nat → Nat) (i : Nat) (hi : i < k) (h : ∀ j, j ≠ i → g j = f j) :
+    sumBelow k g + f i = sumBelow k f + g i := by
+  induction k with
+  | zero => omega
+  | succ k ih =>
+    rw [sumBelow_succ, sumBelow_succ]
+    by_cases hik : i = k
+    · subst hik
+      have : sumBelow i g = sumBelow i f := sumBelow_congr i g f (fun j hj => h j (by omega))
+      omega
+    · have := ih (by omega)
+      have hk := h k (fun e => hik e.symm)
+      omega
+
+def pumpRank : Pump → Nat | .reading => 3 | .signalling => 2 | .closing => 1 | .done => 0
+def mainRank : Main → Nat | .waitCopies => 3 | .afterWait => 2 | .waitSignal => 1 | .returned => 0
+def bit (b : Bool) : Nat := if b then 0 else 1
+
+def perUp (s : St) (i : Nat) : Nat := (s.uin i).length + 2 * (s.upend i).length + bit (s.copyDone i) + bit (s.uerr i)
+
+/-- work left: unread chunks, goroutine program counters, copies not yet ended, faults not yet happened -/
+def measure (s : St) : Nat := s.cin.length + pumpRank s.pump + mainRank s.main + bit s.cerr + sumBelow s.k (perUp s)
+
+theorem measure_decreases (s s' : St) (a : Act) (hs : step s a = some s') : measure s' < measure s := by
+  cases a <;> simp only [step] at hs
+  case pumpRead =>
+    split at hs
+    · split at hs
+      · injection hs with hs; subst hs
+        rename_i c cs hc hpd
+        have : sumBelow s.k (perUp { s with cin := cs, upRecv := fun i => if s.uerr i then s.upRecv i else s.upRecv i ++ c, pump := if anyBelow s.k s.uerr then .signalling else .reading }) = sumBelow s.k (perUp s) :=
+          sumBelow_congr _ _ _ (fun j _ => rfl)
+        simp only [measure, this, hc, hpd.1, List.length_cons]
+        split <;> simp [pumpRank] <;> omega
+      · cases hs
+    · cases hs
+  case pumpEOF =>
+    split at hs
+    · injection hs with hs; subst hs; rename_i h
+      have : sumBelow s.k (perUp { s with pump := .signalling }) = sumBelow s.k (perUp s) := sumBelow_congr _ _ _ (fun j _ => rfl)
+      simp only [measure, this, h.1, pumpRank]; omega
+    · cases hs
+  case pumpErr =>
+    split at hs
+    · injection hs with hs; subst hs; rename_i h
+      have : sumBelow s.k (perUp { s with pump := .signalling }) = sumBelow s.k (perUp s) := sumBelow_congr _ _ _ (fun j _ => rfl)
+      simp only [measure, this, h.1, pumpRank]; omega
+    · cases hs
+  case pumpSignal =>
+    split at hs
+    · injection hs with hs; subst hs; rename_i h
+      have : sumBelow s.k (perUp { s with pump := .closing, sig := s.sig + 1 }) = sumBelow s.k (perUp s) := sumBelow_congr _ _ _ (fun j _ => rfl)
+      simp only [measure, this, h.1, pumpRank]; omega
+    · cases hs
+  case rendezvous =>
+    split at hs
+    · injection hs with hs; subst hs; rename_i h
+      have : sumBelow s.k (perUp (closeAll { s with pump := .closing })) = sumBelow s.k (perUp s) := sumBelow_congr _ _ _ (fun j _ => rfl)
+      simp only [measure, closeAll] at this ⊢
+      simp only [this, h.1, h.2.2, pumpRank, mainRank]; omega
+    · cases hs
+  case pumpClose =>
+    split at hs
+    · injection hs with hs; subst hs; rename_i h
+      have : sumBelow s.k (perUp { s with pump := .done, upEof := fun _ => true, upClosed := fun i => s.upClosed i || !s.upCW i }) = sumBelow s.k (perUp s) :=
+        sumBelow_congr _ _ _ (fun j _ => rfl)
+      simp only [measure, this, h, pumpRank]; omega
+    · cases hs
+  case copyRead i =>
+    split at hs
+    · split at hs
+      · injection hs with hs; subst hs
+        rename_i c cs hc hpd
+        have hu := sumBelow_update s.k (perUp s) (perUp { s with uin := upd s.uin i cs, clRecv := upd s.clRecv i (s.clRecv i ++ c) }) i hpd.1
+          (by intro j hj; simp [perUp, upd, hj])
+        have hv : perUp { s with uin := upd s.uin i cs, clRecv := upd s.clRecv i (s.clRecv i ++ c) } i + 1 = perUp s i := by
+          simp [perUp, upd, hc]; omega
+        simp only [measure]; omega
+      · cases hs
+    · cases hs
+  case copyEOF i =>
+    split at hs
+    · injection hs with hs; subst hs; rename_i h
+      have hu := sumBelow_update s.k (perUp s) (perUp { s with copyDone := upd s.copyDone i true }) i h.1
+        (by intro j hj; simp [perUp, upd, hj])
+      have hv : perUp { s with copyDone := upd s.copyDone i true } i + 1 = perUp s i := by
+        simp [perUp, upd, bit, h.2.1]; omega
+      simp only [measure]; omega
+    · cases hs
+  case copyErr i =>
+    split at hs
+    · injection hs with hs; subst hs; rename_i h
+      have hu := sumBelow_update s.k (perUp s) (perUp { s with copyDone := upd s.copyDone i true }) i h.1
+        (by intro j hj; simp [perUp, upd, hj])
+      have hv : perUp { s with copyDone := upd s.copyDone i true } i + 1 = perUp s i := by
+        simp [perUp, upd, bit, h.2.1]; omega
+      simp only [measure]; omega
+    · cases hs
+  case mainWait =>
+    split at hs
+    · injection hs with hs; subst hs; rename_i h
+      have : sumBelow s.k (perUp { s with main := .afterWait }) = sumBelow s.k (perUp s) := sumBelow_congr _ _ _ (fun j _ => rfl)
+      simp only [measure, this, h.1, mainRank]; omega
+    · cases hs
+  case mainCW =>
+    split at hs
+    · injection hs with hs; subst hs; rename_i h
+      have : sumBelow s.k (perUp { s with main := .waitSignal, clEof := s.clEof || s.downCW }) = sumBelow s.k (perUp s) := sumBelow_congr _ _ _ (fun j _ => rfl)
+      simp only [measure, this, h, mainRank]; omega
+    · cases hs
+  case mainRecv =>
+    split at hs
+    · injection hs with hs; subst hs; rename_i h
+      have : sumBelow s.k (perUp (closeAll { s with sig := s.sig - 1 })) = sumBelow s.k (perUp s) := sumBelow_congr _ _ _ (fun j _ => rfl)
+      simp only [measure, closeAll] at this ⊢
+      simp only [this, h.1, mainRank]; omega
+    · cases hs
+  case upRespond i =>
+    split at hs
+    · injection hs with hs; subst hs; rename_i h
+      have hu := sumBelow_update s.k (perUp s) (perUp { s with uin := upd s.uin i (s.uin i ++ s.upend i), upend := upd s.upend i [] }) i h.1
+        (by intro j hj; simp [perUp, upd, hj])
+      have hne : 0 < (s.upend i).length := by
+        cases hl : s.upend i with
+        | nil => exact absurd hl h.2.2.1
+        | cons a b => simp
+      have hv : perUp { s with uin := upd s.uin i (s.uin i ++ s.upend i), upend := upd s.upend i [] } i + (s.upend i).length = perUp s i := by
+        simp [perUp, upd]; omega
+      simp only [measure]; omega
+    · cases hs
+  case clientReset =>
+    split at hs
+    · injection hs with hs; subst hs; rename_i h
+      have : sumBelow s.k (perUp { s with cerr := true }) = sumBelow s.k (perUp s) := sumBelow_congr _ _ _ (fun j _ => rfl)
+      simp only [measure, this, h, bit]; simp
+    · cases hs
+  case upReset i =>
+    split at hs
+    · injection hs with hs; subst hs; rename_i h
+      have hu := sumBelow_update s.k (perUp s) (perUp { s with uerr := upd s.uerr i true }) i h.1
+        (by intro j hj; simp [perUp, upd, hj])
+      have hv : perUp { s with uerr := upd s.uerr i true } i + 1 = perUp s i := by
+        simp [perUp, upd, bit, h.2]
+      simp only [measure]; omega
+    · cases hs
+
+/-- hence a run of `n` actions needs `n ≤ measure` of its start state: every run is finite -/
+theorem run_length_bounded (acts : List Act) (s s' : St) (h : runActs s acts = some s') : acts.length + measure s' ≤ measure s := by
+  induction acts generalizing s with
+  | nil => simp [runActs] at h; subst h; simp
+  | cons a as ih =>
+    simp only [runActs] at h
+    split at h
+    · rename_i s1 hs1
+      have := ih s1 h
+      have := measure_decreases s s1 a hs1
+      simp only [List.length_cons]; omega
+    · cases h
+
+end L4.Relay
